@@ -8,6 +8,7 @@ import (
 	"os"
 
 	"dawgsverif/areas/cachearea"
+	"dawgsverif/areas/digrapharea"
 	"dawgsverif/areas/entityarea"
 	"dawgsverif/areas/idsetarea"
 	"dawgsverif/areas/reacharea"
@@ -16,10 +17,11 @@ import (
 type cmd func(args []string)
 
 var areas = map[string]map[string]cmd{
-	"cache":  {"replay": cachearea.Replay, "conc": cachearea.Conc},
-	"entity": {"replay": entityarea.Replay},
-	"reach":  {"replay": reacharea.Replay},
-	"idset":  {"replay": idsetarea.Replay, "conc": idsetarea.Conc, "abba": idsetarea.Abba, "toggle": idsetarea.Toggle},
+	"cache":   {"replay": cachearea.Replay, "conc": cachearea.Conc},
+	"entity":  {"replay": entityarea.Replay},
+	"digraph": {"replay": digrapharea.Replay},
+	"reach":   {"replay": reacharea.Replay},
+	"idset":   {"replay": idsetarea.Replay, "conc": idsetarea.Conc, "abba": idsetarea.Abba, "toggle": idsetarea.Toggle},
 }
 
 func main() {
